@@ -252,6 +252,78 @@ class PrintOptions(Part):
             ctx.cls("justify-full")
 
 
+class Tracebacks(Part):
+    name = "tracebacks"
+    rule = ("a Traceback renderable built from a real exception: a script written to a temporary file (with a .py extension, an unusual one or none; UTF-8 or latin-1 with a "
+            "coding line) raises ValueError / ZeroDivisionError / a chained exception / SyntaxError with details / a bare SyntaxError() / an exception with an empty or "
+            "multi-line message, from a call depth of 1-4; x show_locals x word_wrap x extra_lines x theme x width (None or 20..120) x console width: building, printing "
+            "and measuring never raise; non-trivial = the file name has no .py extension or show_locals is on")
+    budget = {"quick": (8, 60), "thorough": (16, 600)}
+    chunk = 60
+
+    def strategy(self, tier):
+        return st.builds(lambda name, enc, kind, depth, sl, ww, el, th, w, cw: {"name": name, "encoding": enc, "kind": kind, "depth": depth, "show_locals": sl, "word_wrap": ww, "extra_lines": el, "theme": th, "width": w, "W": cw},
+                         st.sampled_from(["mod.py", "mod.py", "tool", "app.wsgi", "hook.plugin", "script.PY", "data.json", "noext."]), st.sampled_from(["utf-8", "utf-8", "latin-1"]),
+                         st.sampled_from(["value", "zero", "chained", "syntax", "bare-syntax", "empty-message", "multiline-message", "keyboard"]), st.integers(1, 4), st.booleans(), st.booleans(),
+                         st.integers(0, 5), st.sampled_from([None, "monokai", "ansi_dark", "default"]), st.one_of(st.none(), st.integers(20, 120)), st.integers(10, 120))
+
+    def check(self, spec, ctx):
+        import os
+        import shutil
+        import sys
+        import tempfile
+        import linecache
+        from rich.console import Console
+        from rich.measure import Measurement
+        from rich.traceback import Traceback
+
+        raise_line = {"value": "raise ValueError('bad value: caf\u00e9' if v else 'x')", "zero": "return 1 / (v - v)", "syntax": "return compile('def (:', 'inner.py', 'exec')", "bare-syntax": "raise SyntaxError()",
+                      "empty-message": "raise RuntimeError()", "multiline-message": "raise RuntimeError('line one\\nline two\\n')", "keyboard": "raise KeyboardInterrupt()",
+                      "chained": "raise KeyError('k')"}[spec["kind"]]
+        lines = ["# -*- coding: %s -*-" % spec["encoding"], "# caf\u00e9 \u00fc", ""]
+        for d in range(spec["depth"]):
+            lines += ["def f%d(v):" % d, "    local_%d = [v] * 3" % d]
+            if d < spec["depth"] - 1:
+                lines += ["    return f%d(v)" % (d + 1), ""]
+            elif spec["kind"] == "chained":
+                lines += ["    try:", "        " + raise_line, "    except KeyError as e:", "        raise ValueError('outer') from e", ""]
+            else:
+                lines += ["    " + raise_line, ""]
+        src = "\n".join(lines)
+        d = tempfile.mkdtemp(prefix="vp_c14_tb_")
+        try:
+            path = os.path.join(d, spec["name"])
+            with open(path, "w", encoding=spec["encoding"]) as fh:
+                fh.write(src)
+            glob = {}
+            exec(compile(src, path, "exec"), glob)
+            try:
+                glob["f0"](1)
+            except BaseException:  # noqa
+                et, ev, tb = sys.exc_info()
+            else:
+                raise AssertionError("generated script did not raise")
+            for what in ("build", "print", "measure"):
+                try:
+                    trace = Traceback.from_exception(et, ev, tb, width=spec["width"], extra_lines=spec["extra_lines"], theme=spec["theme"], word_wrap=spec["word_wrap"], show_locals=spec["show_locals"])
+                    con = Console(file=io.StringIO(), width=spec["W"], color_system="truecolor", force_terminal=True, legacy_windows=False, _environ={})
+                    if what == "print":
+                        con.print(trace)
+                    elif what == "measure":
+                        Measurement.get(con, trace, spec["W"])
+                except MemoryError:
+                    raise
+                except Exception as e:  # noqa
+                    ctx.violation("undocumented-exception", "C14/traceback/%s" % bucket_of(e), "Traceback of %s raised in %r (%s), %s at width %d: %r; options %r" % (spec["kind"], spec["name"], spec["encoding"], what, spec["W"], e, spec))
+                    return
+        finally:
+            shutil.rmtree(d, ignore_errors=True)
+            linecache.clearcache()
+        if not spec["name"].endswith(".py") or spec["show_locals"]:
+            ctx.nontrivial = True
+        ctx.cls("kind-" + spec["kind"])
+
+
 class NonTermination(Exception):
     pass
 
@@ -273,8 +345,13 @@ def counting_console(W, limit=200000, color_system="truecolor", no_color=False):
 
 def syntax_leaf():
     code = st.lists(st.sampled_from(["x = 1", "", "def f():", "    return 2", "\tif a:", "# 漢字", "print('[bold]')"]), max_size=6).map("\n".join)
-    return st.builds(lambda c, ln, lr, ww, nl: {"k": "syntax", "code": c + ("\n" if nl else ""), "line_numbers": ln, "line_range": lr, "word_wrap": ww},
-                     code, st.booleans(), st.one_of(st.none(), st.tuples(st.integers(1, 9), st.integers(1, 12)).map(lambda t: [min(t), max(t)])), st.booleans(), st.booleans())
+    # code in several languages (lexers have token types of their own, themes must cope with all of them)
+    other = st.sampled_from(["key: value\nlist:\n  - a\n  - 'b'\n", "SELECT `a`, 'x' FROM t WHERE b = 1;\n", "<a href=\"x\">t</a>\n", "{\"k\": [1, null]}\n", "[s]\nk = 1\n", "# T\n\n*e* `c`\n",
+                             "int main(void) { return 0; }\n", "echo \"$HOME\" | grep x\n", "@dec\ndef f(): pass\n", ".. note::\n\n   text\n", "a { color: red; }\n", ""])
+    lexer = st.sampled_from(["python", "python", "yaml", "mysql", "sql", "html", "json", "toml", "ini", "markdown", "c", "bash", "rst", "css", "text", "no-such-lexer", "docker", "diff", "xml", "js"])
+    theme = st.sampled_from(["monokai", "monokai", "default", "ansi_dark", "ansi_light", "vim", "emacs"])
+    return st.builds(lambda c, o, lx, th, ln, lr, ww, nl: {"k": "syntax", "code": (c if lx == "python" else o) + ("\n" if nl else ""), "lexer": lx, "theme": th, "line_numbers": ln, "line_range": lr, "word_wrap": ww},
+                     code, other, lexer, theme, st.booleans(), st.one_of(st.none(), st.tuples(st.integers(1, 9), st.integers(1, 12)).map(lambda t: [min(t), max(t)])), st.booleans(), st.booleans())
 
 
 def markdown_leaf():
@@ -359,7 +436,7 @@ class _SpinnerAt:
 def _build_syntax(n):
     from rich.syntax import Syntax
 
-    return Syntax(n["code"], "python", line_numbers=n["line_numbers"], line_range=tuple(n["line_range"]) if n["line_range"] else None, word_wrap=n["word_wrap"])
+    return Syntax(n["code"], n.get("lexer", "python"), theme=n.get("theme", "monokai"), line_numbers=n["line_numbers"], line_range=tuple(n["line_range"]) if n["line_range"] else None, word_wrap=n["word_wrap"])
 
 
 def _wide_min(text):
@@ -520,4 +597,4 @@ class Fuzz(Part):
             shutil.rmtree(crashes, ignore_errors=True)
 
 
-PARTS = [Tokens(), Unicode(), Trees(), Fuzz(), PrintOptions()]
+PARTS = [Tokens(), Unicode(), Trees(), Fuzz(), PrintOptions(), Tracebacks()]
